@@ -167,6 +167,9 @@ func FieldPath(v ssa.Value) (string, bool) {
 				return p.Name(), true
 			}
 		}
+		if x.Comment != "" {
+			return "local(" + x.Comment + ")", true
+		}
 		return "", false
 	case *ssa.UnOp:
 		if x.Op == token.MUL {
